@@ -3,6 +3,7 @@ package parse
 import (
 	"errors"
 	"strconv"
+	"unicode/utf16"
 	"unicode/utf8"
 )
 
@@ -73,6 +74,14 @@ func unquoteString(s string) (string, error) {
 				}
 				r = rune(num)
 				i += 4
+				// a surrogate pair written as two escapes is one character
+				if utf16.IsSurrogate(r) && i+6 <= len(s) && s[i] == '\\' && s[i+1] == 'u' {
+					if lo, err := strconv.ParseInt(s[i+2:i+6], 16, 0); err == nil {
+						if c := utf16.DecodeRune(r, rune(lo)); c != utf8.RuneError {
+							r, i = c, i+6
+						}
+					}
+				}
 			} else {
 				replacement, ok := unescapes[r]
 				if r == '"' {
